@@ -101,7 +101,7 @@ def main():
             print("%-8s %-22s original %s, corrupted (%s) %s%s" % (module, ",".join(sorted(active)), "accepted" if not f0 else "REJECTED " + f0[0]["c"], what,
                                                                    "rejected: " + f1[0]["c"] if f1 else "ACCEPTED", "" if ok else "   <== BINDING FAILURE"))
         # JSession separately (needs digests)
-        ev = [{"c": 1, "ret": "aa", "fresh": "aa", "fresh2": "aa", "before": "x", "after": "x", "obj": "D"}, {"c": 2, "ret": "bb", "fresh": "bb", "fresh2": "bb", "before": "y", "after": "y", "obj": "D"}]
+        ev = [{"c": 1, "ret": "aa", "fresh": "aa", "fresh2": "aa", "before": "x", "after": "x", "obj": "D", "amb0": "m", "amb1": "m"}, {"c": 2, "ret": "bb", "fresh": "bb", "fresh2": "bb", "before": "y", "after": "y", "obj": "D", "amb0": "m", "amb1": "m"}]
         ev2 = copy.deepcopy(ev); ev2[1]["ret"] = "cc"
         f0 = ck.judge("JSession", [{"events": ev}], {"C15"}); f1 = ck.judge("JSession", [{"events": ev2}], {"C15"})
         ok = (not f0) and bool(f1); bad += 0 if ok else 1
